@@ -168,6 +168,13 @@ def run_prune(ctx):
             ctx.anchor_lost("prune-oldest", "%s::prune_checkpoints has no loop over the ids to delete" % store)
             continue
         it = loops[0]["iter"]
+        # equivalent form: a slice prefix `&ids[..n]` (optionally .iter())
+        e0 = H.strip(it)
+        while e0 is not None and e0.get("k") in ("ref",) or (e0 is not None and e0.get("k") == "mcall" and e0["method"] in ("iter", "into_iter")):
+            e0 = H.strip(e0["e"]) if e0.get("k") == "ref" else H.strip(e0["recv"])
+        if e0 is not None and e0.get("k") == "index" and H.strip(e0["i"]).get("k") == "struct" and H.strip(e0["i"])["adt"].endswith("ops::range::RangeTo"):
+            endx = H.strip(H.strip(e0["i"])["fields"][0]["e"])
+            it = {"k": "mcall", "method": "take", "recv": {"k": "mcall", "method": "iter", "recv": e0["e"], "args": [], "sp": e0["sp"], "exp": ""}, "args": [endx], "sp": e0["sp"], "exp": ""}
         chain = []
         e = H.strip(it)
         while e is not None and e.get("k") == "mcall":
